@@ -40,6 +40,9 @@ def build_states(rng, groups, per_group):
     return obs, tabs, gidx
 
 
+SHARE = [0]
+
+
 def pair_traces(tid0, obs, tabs, pairs, chunk=400):
     """fidelity / eq / infidelity events for the given index pairs, chunked into traces."""
     import graphiq.backends.stabilizer.functions.metric as sfm
@@ -64,13 +67,17 @@ def pair_traces(tid0, obs, tabs, pairs, chunk=400):
 
     for (i, j, kind) in pairs:
         a, b = tabs[i], tabs[j]
+        # every second comparison is made on the LONG-LIVED objects themselves (no copies): a comparison must leave its
+        # arguments as they were, or the later comparisons of the same objects come out wrong
+        SHARE[0] += 1
+        ca = (lambda t: t) if SHARE[0] % 2 else (lambda t: t.copy())
         if kind == "fidelity":
             e = {"fn": "fidelity", "a": i, "b": j,
-                 "out": rat_out(lambda: sfm.fidelity(a.copy(), b.copy())),
-                 "out2": rat_out(lambda: sfm.fidelity(b.copy(), a.copy()))}
+                 "out": rat_out(lambda: sfm.fidelity(ca(a), ca(b))),
+                 "out2": rat_out(lambda: sfm.fidelity(ca(b), ca(a)))}
         elif kind == "eq":
             try:
-                v = bool(Stabilizer(a.copy()) == Stabilizer(b.copy()))
+                v = bool(Stabilizer(ca(a)) == Stabilizer(ca(b)))
                 e = {"fn": "eq", "a": i, "b": j, "out": {"err": "", "v": v}}
             except Exception as ex:
                 e = {"fn": "eq", "a": i, "b": j, "out": {"err": type(ex).__name__, "v": False}}
